@@ -18,6 +18,8 @@ What is mirrored (model = code, including quirks):
   constants and numeric fields); enum variants are tried in source order (pattern, then `pool_has_utf8` guard);
   after a field marked `; Some(&field)` the pool handed to everything read later is that field.
 * `_len`: widths only, no expression is evaluated; the result is a `u32` (`len32`).
+* `readG false` (= `read`) is the Rust reader; `readG true` (= `readStrict`) is the same reader with the additional
+  `ConstsAgree` check (see "strict mode"), used only to state the `write (read b) = b` theorem.
 * Rust integer semantics with overflow checks on: `+ - *` are done in the operand type (`bits`), overflow and
   underflow panic (`none`); `as` truncates (`% 2^w`).  `(index - 1) as usize` in `pool_has_utf8` panics for index 0.
 -/
@@ -299,7 +301,7 @@ inductive Res (α : Type) where
   | err
   | panic
   | fuel
-  deriving Repr, Inhabited
+  deriving Repr, Inhabited, DecidableEq
 
 def Res.bind {α β : Type} : Res α → (α → Res β) → Res β
   | .ok a, f => f a
@@ -331,15 +333,23 @@ def readTy (rc : Rec) (pool : Pool) (binds : Binds) : Ty → Bytes → Res (Val 
     | none => .panic
   | .ref id, bs => rc id pool bs
 
-def readConsts (binds : Binds) : List Const → Bytes → Res (Binds × Bytes)
-  | [], bs => .ok (binds, bs)
+/-- a constant read as `n` passes `notation!(check, …)`: compared only when the source expression is a literal -/
+def constOk (c : Const) (n : Nat) : Bool :=
+  match c.lit with
+  | some l => n == l
+  | none => true
+
+/-- reads the constants; besides the bindings it returns the values read, in order (a ghost output: the Rust code
+drops them; the strict mode of `readBody` compares them with the recomputed ones) -/
+def readConsts (binds : Binds) : List Const → Bytes → Res (Binds × List Nat × Bytes)
+  | [], bs => .ok (binds, [], bs)
   | c :: cs, bs =>
     match takeBE c.p bs with
     | none => .err
     | some (n, r) =>
-      match c.lit with
-      | some l => if n = l then readConsts ((c.name, n) :: binds) cs r else .err
-      | none => readConsts ((c.name, n) :: binds) cs r
+      if constOk c n then
+        (readConsts ((c.name, n) :: binds) cs r).bind fun (b, ns, r') => .ok (b, n :: ns, r')
+      else .err
 
 def poolAfter (setsPool : Bool) (v : Val) (pool : Pool) : Pool :=
   if setsPool then (match v with | .list vs => some vs | _ => pool) else pool
@@ -349,20 +359,21 @@ def bindVal (name : Nat) (v : Val) (binds : Binds) : Binds :=
   | .num n => (name, n) :: binds
   | _ => binds
 
-def readFields (rc : Rec) (pool : Pool) (binds : Binds) : List Field → Bytes → Res (List Val × Bytes)
-  | [], bs => .ok ([], bs)
+/-- fields of a body and the constants after each; also returns the values of those constants (ghost, see `readConsts`) -/
+def readFields (rc : Rec) (pool : Pool) (binds : Binds) : List Field → Bytes → Res (List Val × List Nat × Bytes)
+  | [], bs => .ok ([], [], bs)
   | f :: fds, bs =>
     match f.kind with
     | .field ty sp =>
       (readTy rc pool binds ty bs).bind fun (v, bs1) =>
-      (readConsts (bindVal f.name v binds) f.post bs1).bind fun (binds2, bs2) =>
-      (readFields rc (poolAfter sp v pool) binds2 fds bs2).bind fun (vs, r) => .ok (v :: vs, r)
+      (readConsts (bindVal f.name v binds) f.post bs1).bind fun (binds2, t1, bs2) =>
+      (readFields rc (poolAfter sp v pool) binds2 fds bs2).bind fun (vs, t2, r) => .ok (v :: vs, t1 ++ t2, r)
     | .nowrite _ e =>
       match evalR e.bits binds e.e with
       | none => .panic
       | some n =>
-        (readConsts ((f.name, n) :: binds) f.post bs).bind fun (binds2, bs2) =>
-        (readFields rc pool binds2 fds bs2).bind fun (vs, r) => .ok (.num n :: vs, r)
+        (readConsts ((f.name, n) :: binds) f.post bs).bind fun (binds2, t1, bs2) =>
+        (readFields rc pool binds2 fds bs2).bind fun (vs, t2, r) => .ok (.num n :: vs, t1 ++ t2, r)
 
 def patMatch : Pat → Nat → Bool
   | .lit n, t => t == n
@@ -407,25 +418,72 @@ def headBinds (v : Variant) (tagName tag : Nat) : Binds :=
   | some b => [(b, tag), (tagName, tag)]
   | none => [(tagName, tag)]
 
-def readBody (rc : Rec) (pool : Pool) (binds : Binds) (k : Nat) (body : Body) (bs : Bytes) : Res (Val × Bytes) :=
-  (readConsts binds body.pre bs).bind fun (binds1, bs1) =>
-  (readFields rc pool binds1 body.fields bs1).bind fun (vs, r) => .ok (.node k vs, r)
+/-! ### strict mode (`ConstsAgree`)
 
-def readDef (rc : Rec) (env : Env) (id : Nat) (pool : Pool) (bs : Bytes) : Res (Val × Bytes) :=
+The Rust reader verifies literal constants only; computed constants (`attribute_length = this._len() - 6`,
+`constant_pool_count`, …) and computed tags are read and dropped.  `strict = false` is the model of the Rust code.
+`strict = true` additionally compares, at the end of every struct / variant, the constants and the tag that were read
+with the ones `_write` would produce for the value just read, and fails (`err`) when they differ.  The predicate
+"the strict reader does not fail where the plain reader succeeds" is the `ConstsAgree` hypothesis of the
+`write (read b) = b` theorem. -/
+
+/-- values `_write` puts into the constants (after the `as` cast) -/
+def constVals (thisLen : Option Nat) (ctx : List (Nat × Val)) : List Const → Option (List Nat)
+  | [] => some []
+  | c :: cs =>
+    match evalW c.e.bits thisLen ctx c.e.e, constVals thisLen ctx cs with
+    | some n, some r => some (n % c.p.bound :: r)
+    | _, _ => none
+
+def allPost : List Field → List Const
+  | [] => []
+  | f :: fds => f.post ++ allPost fds
+
+/-- the constants (`trace`, in order) and the tag read for a node are the ones `_write` recomputes from its fields -/
+def nodeAgrees (env : Env) (id k : Nat) (body : Body) (tag : Option (TExpr × Prim × Nat)) (vs : List Val)
+    (trace : List Nat) : Bool :=
+  (constVals (len32 (lenV env (.ref id) (.node k vs))) (mkCtx body.fields vs) (body.pre ++ allPost body.fields) == some trace) &&
+  (match tag with
+   | none => true
+   | some (e, p, t) =>
+     (match evalW e.bits (len32 (lenV env (.ref id) (.node k vs))) (mkCtx body.fields vs) e.e with
+      | some n => n % p.bound == t
+      | none => false))
+
+def readBody (strict : Bool) (env : Env) (id : Nat) (tag : Option (TExpr × Prim × Nat)) (rc : Rec) (pool : Pool)
+    (binds : Binds) (k : Nat) (body : Body) (bs : Bytes) : Res (Val × Bytes) :=
+  (readConsts binds body.pre bs).bind fun (binds1, t1, bs1) =>
+  (readFields rc pool binds1 body.fields bs1).bind fun (vs, t2, r) =>
+  if strict && !nodeAgrees env id k body tag vs (t1 ++ t2) then .err else .ok (.node k vs, r)
+
+def readDef (strict : Bool) (rc : Rec) (env : Env) (id : Nat) (pool : Pool) (bs : Bytes) : Res (Val × Bytes) :=
   match env.defs[id]? with
   | none => .err
-  | some (.struct _ body) => readBody rc pool [] 0 body bs
+  | some (.struct _ body) => readBody strict env id none rc pool [] 0 body bs
   | some (.enum _ tagName tagTy variants _) =>
     match takeBE tagTy bs with
     | none => .err
     | some (tag, bs1) =>
       (selectVariant env.utf8 pool tag variants 0).bind fun (i, v) =>
-      readBody rc pool (headBinds v tagName tag) i v.body bs1
+      readBody strict env id (some (v.tagWrite, tagTy, tag)) rc pool (headBinds v tagName tag) i v.body bs1
 
-/-- `T::_read(reader, pool)` with `fuel` levels of nested definitions -/
-def read (env : Env) : Nat → Rec
+/-- `T::_read(reader, pool)` with `fuel` levels of nested definitions; `strict = false` is the Rust code -/
+def readG (strict : Bool) (env : Env) : Nat → Rec
   | 0 => fun _ _ _ => .fuel
-  | f + 1 => readDef (read env f) env
+  | f + 1 => readDef strict (readG strict env f) env
+
+/-- the model of `_read` -/
+abbrev read (env : Env) : Nat → Rec := readG false env
+
+/-- the checking reader defining `ConstsAgree` -/
+abbrev readStrict (env : Env) : Nat → Rec := readG true env
+
+/-- `ConstsAgree`: the checking reader accepts the input, i.e. every computed constant and computed tag in it is the
+one `_write` would produce for the value read (decidable) -/
+def constsAgree (env : Env) (fuel id : Nat) (pool : Pool) (b : Bytes) : Bool :=
+  match readStrict env fuel id pool b with
+  | .ok _ => true
+  | _ => false
 
 /-! ## `Fits`: the values the format can express (decidable; domain of the round-trip theorems and oracles) -/
 
@@ -436,9 +494,7 @@ def constsBinds (thisLen : Option Nat) (ctx : List (Nat × Val)) (binds : Binds)
     match evalW c.e.bits thisLen ctx c.e.e with
     | none => none
     | some n =>
-      match c.lit with
-      | some l => if n % c.p.bound = l then constsBinds thisLen ctx ((c.name, n % c.p.bound) :: binds) cs else none
-      | none => constsBinds thisLen ctx ((c.name, n % c.p.bound) :: binds) cs
+      if constOk c (n % c.p.bound) then constsBinds thisLen ctx ((c.name, n % c.p.bound) :: binds) cs else none
 
 def selectIdx (utf8 : Nat) (pool : Pool) (tag : Nat) (vs : List Variant) : Option Nat :=
   match selectVariant utf8 pool tag vs 0 with
@@ -495,6 +551,138 @@ def fitsFields (env : Env) (thisLen : Option Nat) (ctx : List (Nat × Val)) (poo
   | _, _ => false
 end
 
+/-! ## static well-formedness of a layout environment (decidable; checked on the translated layouts by `decide`)
+
+What the macro and rustc guarantee for a `notation!` block that compiles, as far as the interpreter relies on it:
+references resolve, element types of vectors are single tokens, read-side expressions (`{len}`, `nowrite = …`) only
+mention names bound earlier (tag variable, pattern binding, earlier constants and numeric fields), write-side
+expressions only mention fields of the value (`x` numeric, `x.len()` vector) or `this._len()`, the widths are Rust
+integer widths, the `lit` flag of a constant is set iff its expression is a literal that fits, names are distinct
+within a body, patterns fit the tag type, the pool is handed on only after a vector of pool entries whose variant
+`utf8` is `{ bytes: Vec<u8> }`.  Under `WF` the outcomes `none` / `panic` of the interpreter stand for arithmetic
+overflow only, never for an unbound name. -/
+
+def Expr.okR (bound : List Nat) : Expr → Bool
+  | .lit _ => true
+  | .var x => bound.contains x
+  | .lenOf _ => false
+  | .thisLen => false
+  | .add a b => a.okR bound && b.okR bound
+  | .sub a b => a.okR bound && b.okR bound
+  | .mul a b => a.okR bound && b.okR bound
+
+def Expr.okW (nums vecs : List Nat) : Expr → Bool
+  | .lit _ => true
+  | .var x => nums.contains x
+  | .lenOf x => vecs.contains x
+  | .thisLen => true
+  | .add a b => a.okW nums vecs && b.okW nums vecs
+  | .sub a b => a.okW nums vecs && b.okW nums vecs
+  | .mul a b => a.okW nums vecs && b.okW nums vecs
+
+def bitsOk (b : Nat) : Bool := b == 8 || b == 16 || b == 32 || b == 64
+
+def elemOk (ndefs : Nat) : Ty → Bool
+  | .prim _ => true
+  | .ref id => id < ndefs
+  | _ => false
+
+def tyOk (ndefs : Nat) (bound : List Nat) : Ty → Bool
+  | .prim _ => true
+  | .vecCnt _ el => elemOk ndefs el
+  | .vecLen e el => bitsOk e.bits && e.e.okR bound && elemOk ndefs el
+  | .ref id => id < ndefs
+
+def Const.wf (nums vecs : List Nat) (c : Const) : Bool :=
+  bitsOk c.e.bits && c.e.e.okW nums vecs &&
+  (match c.lit, c.e.e with
+   | some n, .lit m => n == m && n < c.p.bound
+   | none, .lit _ => false
+   | some _, _ => false
+   | none, _ => true)
+
+def Field.isNum (f : Field) : Bool :=
+  match f.kind with
+  | .field (.prim _) _ => true
+  | .nowrite _ _ => true
+  | _ => false
+
+def Field.isVec (f : Field) : Bool :=
+  match f.kind with
+  | .field (.vecCnt _ _) _ => true
+  | .field (.vecLen _ _) _ => true
+  | _ => false
+
+/-- the definition `id` is an enum whose variant `utf8` is `{ bytes: Vec<u8> }` (what `pool_has_utf8` destructures) -/
+def poolEntryOk (defs : List Def) (utf8 : Nat) : Ty → Bool
+  | .ref id =>
+    (match defs[id]? with
+     | some (.enum _ _ _ variants _) =>
+       (match variants[utf8]? with
+        | some v =>
+          (match v.body.pre, v.body.fields with
+           | [], [f] =>
+             (match f.kind, f.post with
+              | .field (.vecCnt _ (.prim .u8)) _, [] => true
+              | _, _ => false)
+           | _, _ => false)
+        | none => false)
+     | _ => false)
+  | _ => false
+
+def fieldsWf (defs : List Def) (utf8 : Nat) (nums vecs : List Nat) : List Nat → List Field → Bool
+  | _, [] => true
+  | bound, f :: fds =>
+    (match f.kind with
+     | .field ty sp =>
+       tyOk defs.length bound ty &&
+       (!sp || (match ty with
+                | .vecCnt _ el => poolEntryOk defs utf8 el
+                | .vecLen _ el => poolEntryOk defs utf8 el
+                | _ => false))
+     | .nowrite _ e => bitsOk e.bits && e.e.okR bound) &&
+    f.post.all (Const.wf nums vecs) &&
+    fieldsWf defs utf8 nums vecs (f.post.reverse.map (·.name) ++ ((if f.isNum then [f.name] else []) ++ bound)) fds
+
+def allNames (b : Body) : List Nat :=
+  b.pre.map (·.name) ++ b.fields.flatMap fun f => f.name :: f.post.map (·.name)
+
+def distinct : List Nat → Bool
+  | [] => true
+  | x :: xs => !xs.contains x && distinct xs
+
+def Body.wf (defs : List Def) (utf8 : Nat) (head : List Nat) (b : Body) : Bool :=
+  let nums := (b.fields.filter Field.isNum).map (·.name)
+  let vecs := (b.fields.filter Field.isVec).map (·.name)
+  b.pre.all (Const.wf nums vecs) &&
+  fieldsWf defs utf8 nums vecs (b.pre.reverse.map (·.name) ++ head) b.fields &&
+  distinct (allNames b)
+
+def Pat.wf (tagTy : Prim) : Pat → Bool
+  | .lit n => n < tagTy.bound
+  | .range lo hi => lo ≤ hi && hi < tagTy.bound
+  | .any => true
+
+def Variant.wf (defs : List Def) (utf8 : Nat) (tagName : Nat) (tagTy : Prim) (v : Variant) : Bool :=
+  let nums := (v.body.fields.filter Field.isNum).map (·.name)
+  let vecs := (v.body.fields.filter Field.isVec).map (·.name)
+  v.pat.wf tagTy && bitsOk v.tagWrite.bits && v.tagWrite.e.okW nums vecs &&
+  -- a binding is only possible on a range or catch-all pattern; a guard needs a pool index, i.e. no literal pattern
+  (match v.pat with
+   | .lit _ => v.bind.isNone && v.guard.isNone
+   | _ => true) &&
+  v.body.wf defs utf8 (match v.bind with | some b => [b, tagName] | none => [tagName])
+
+def Def.wf (defs : List Def) (utf8 : Nat) : Def → Bool
+  | .struct _ body =>
+    body.wf defs utf8 [] && body.fields.all fun f => match f.kind with | .nowrite _ _ => false | _ => true
+  | .enum _ tagName tagTy variants _ =>
+    variants.all (Variant.wf defs utf8 tagName tagTy) &&
+    variants.all fun v => v.body.fields.all fun f => match f.kind with | .field _ true => false | _ => true
+
+/-- well-formed layout environment -/
+def WF (env : Env) : Bool := env.defs.all (Def.wf env.defs env.utf8)
+
 /-! nesting depth of definitions in a value = fuel needed to read it back -/
 mutual
 def depthV : Val → Nat
@@ -533,5 +721,39 @@ def typedFields (env : Env) : List Field → List Val → Bool
      | .nowrite p _ => (match v with | .num n => n < p.bound | _ => false)) && typedFields env fds vs
   | _, _ => false
 end
+
+/-! ## values outside the regions of the known JVMS defects (domain of the JVMS-conformance oracles) -/
+
+mutual
+/-- no node of the value is a variant for which `bad defId variant` holds -/
+def avoidsV (env : Env) (bad : Nat → Variant → Bool) : Ty → Val → Bool
+  | .vecCnt _ el, .list vs => avoidsAll env bad el vs
+  | .vecLen _ el, .list vs => avoidsAll env bad el vs
+  | .ref id, .node k fs =>
+    match env.defs[id]? with
+    | some (.struct _ body) => avoidsFields env bad body.fields fs
+    | some (.enum _ _ _ variants _) =>
+      (match variants[k]? with
+       | some v => !bad id v && avoidsFields env bad v.body.fields fs
+       | none => true)
+    | none => true
+  | _, _ => true
+def avoidsAll (env : Env) (bad : Nat → Variant → Bool) (el : Ty) : List Val → Bool
+  | [] => true
+  | v :: vs => avoidsV env bad el v && avoidsAll env bad el vs
+def avoidsFields (env : Env) (bad : Nat → Variant → Bool) : List Field → List Val → Bool
+  | f :: fds, v :: vs =>
+    (match f.kind with
+     | .field ty _ => avoidsV env bad ty v
+     | .nowrite _ _ => true) && avoidsFields env bad fds vs
+  | _, _ => true
+end
+
+/-- the regions of the three known defects: pool entries written with tag 5 or 6 (long, double) in the definition
+`cpId`, attribute variants guarded by the names `NestMembers` and `MethodParameters` -/
+def knownBad (cpId : Nat) (id : Nat) (v : Variant) : Bool :=
+  (id == cpId && (v.tagWrite.e == .lit 5 || v.tagWrite.e == .lit 6)) ||
+  v.guard == some [78, 101, 115, 116, 77, 101, 109, 98, 101, 114, 115] ||
+  v.guard == some [77, 101, 116, 104, 111, 100, 80, 97, 114, 97, 109, 101, 116, 101, 114, 115]
 
 end RawLayout
